@@ -9,6 +9,14 @@ use crate::ops::{universe, Fe, Flags, Op, Step};
 use crate::zones;
 use vcore::Rng;
 
+pub type Rejected = std::collections::BTreeMap<&'static str, u64>;
+
+pub fn count_rejected(out: &mut vcore::ScenarioOut, r: &Rejected) {
+    for (k, v) in r {
+        out.count(&format!("zone_rejected:{k}"), *v);
+    }
+}
+
 #[derive(Clone, Debug)]
 pub struct GenCfg {
     pub len: usize,
@@ -381,7 +389,7 @@ fn gen_sync(rng: &mut Rng, cfg: &GenCfg, t: &Tree) -> Option<Op> {
 
 /// Generate a history. Returns the ops and the number of candidates rejected
 /// because they fell into a known-defect zone.
-pub fn gen_history(rng: &mut Rng, cfg: &GenCfg) -> (Vec<Op>, u64) {
+pub fn gen_history(rng: &mut Rng, cfg: &GenCfg) -> (Vec<Op>, Rejected) {
     // focus: a per-history subset of the universe so that paths collide
     let mut all = universe();
     rng.shuffle(&mut all);
@@ -403,15 +411,15 @@ pub fn gen_history(rng: &mut Rng, cfg: &GenCfg) -> (Vec<Op>, u64) {
     let mut t = Tree::new();
     let mut zt = zones::Tracker::new();
     let mut out: Vec<Op> = vec![];
-    let mut rejected = 0u64;
+    let mut rejected = Rejected::new();
     let mut guard = 0;
     while out.len() < cfg.len && guard < cfg.len * 40 {
         guard += 1;
         let mut op = gen_op(rng, cfg, &t, &focus);
         fix_fe(&mut op);
         if cfg.avoid_zones {
-            if let Some(_z) = zt.check(&t, &op) {
-                rejected += 1;
+            if let Some(z) = zt.check(&t, &op) {
+                *rejected.entry(z).or_default() += 1;
                 continue;
             }
         }
